@@ -32,6 +32,7 @@ var (
 	pKey24          = simrt.NewProbe("key.24.bytes")
 	pKey32          = simrt.NewProbe("key.32.bytes")
 	pConnCompressed = simrt.NewProbe("conn.encrypted+compressed")
+	pIVSpare        = simrt.NewProbe("iv.slice.with.spare.capacity.shared.by.both.streams")
 )
 
 func keyIV(tp *tape.Tape) (key, iv []byte) {
@@ -47,6 +48,19 @@ func keyIV(tp *tape.Tape) (key, iv []byte) {
 	// Minecraft uses key == iv; keep that a common case
 	if kl == 16 && tp.Bool(1, 2) {
 		iv = append([]byte(nil), key...)
+	}
+	// The IV is handed to the constructors as a slice that may have spare
+	// capacity (a sub-slice of a larger buffer), and - as bot/login.go and
+	// server/auth do - the same slice is used for the encrypter and the
+	// decrypter. Neither may matter.
+	if spare := []int{0, 0, 1, 16, 32, 48, 100}[tp.Choose(7)]; spare > 0 {
+		pIVSpare.Hit()
+		buf := make([]byte, 16, 16+spare)
+		copy(buf, iv)
+		for i := 16; i < cap(buf); i++ {
+			buf[:cap(buf)][i] = 0xA7
+		}
+		iv = buf
 	}
 	return
 }
@@ -98,7 +112,15 @@ func scenarioDirect(c *harness.Ctx) {
 	} else {
 		s = CFB8.NewCFB8Encrypt(blk, iv)
 	}
-	r := ref.New(key, iv, decrypt)
+	ivCopy := append([]byte(nil), iv...)
+	// the opposite stream, built from the very same iv slice, undoes every call
+	var inv *CFB8.CFB8
+	if decrypt {
+		inv = CFB8.NewCFB8Encrypt(blk, iv)
+	} else {
+		inv = CFB8.NewCFB8Decrypt(blk, iv)
+	}
+	r := ref.New(key, ivCopy, decrypt)
 	want := r.Apply(msg)
 	var calls []string
 	got := make([]byte, 0, len(msg))
@@ -161,7 +183,18 @@ func scenarioDirect(c *harness.Ctx) {
 			}
 		}
 		got = append(got, dst[:n]...)
+		// round trip through the opposite stream (separate buffer)
+		back := make([]byte, n)
+		inv.XORKeyStream(back, dst[:n])
+		if !bytes.Equal(back, msg[off:off+n]) {
+			c.Fail("cfb8", "roundtrip", "inverse-stream", "call history %v: applying the opposite stream (same key, same IV slice) to the output of call %d does not give the input back", calls, len(calls))
+			return
+		}
 		off += n
+	}
+	if !bytes.Equal(iv, ivCopy) {
+		c.Fail("cfb8", "constructor", "iv-modified", "the caller's IV slice was modified by the streams (len %d cap %d)", len(iv), cap(iv))
+		return
 	}
 	c.Config["decrypt"] = decrypt
 	c.Config["key_len"] = len(key)
